@@ -61,7 +61,8 @@ fn world_strategy() -> impl Strategy<Value = WorldSpec> {
 pub fn case_strategy(c10: bool, max_len: u8, extra_random: u32) -> impl Strategy<Value = BrCase> {
     (
         world_strategy(),
-        prop_oneof![100_000u64..10_000_000_000, 10_000_000_000u64..1_000_000_000_000_000],
+        // dollar value of the collateral in cents: mostly well above $5, sometimes below
+        prop_oneof![1 => 50u64..500, 6 => 5_000u64..100_000_000, 2 => 100_000_000u64..100_000_000_000],
         30_000u32..=64_000,
         if c10 { prop_oneof![4 => -200i32..-5, 1 => 5i32..200].boxed() } else { (100i32..400).boxed() },
         3000u32..20_000,
@@ -96,9 +97,20 @@ fn prepare(c: &BrCase, c10: bool) -> Option<Prep> {
         let ix = w.ix_deposit(lender.accts[0], lender.auth, bi, lender.tokens[bi], 1_000_000_000_000_000, None);
         w.vm.exec(&ix).ok()?;
     }
-    let ix = w.ix_deposit(u.accts[0], u.auth, ab, u.tokens[ab], c.collateral, None);
+    // `collateral` is a dollar value in cents: convert to native units at the current price so that
+    // most accounts are worth well over the $5 close-out threshold
+    let collateral_native = {
+        let ba = w.bank(ab);
+        let ov = oracle_view(&w.vm, &ba, w.vm.now());
+        let p = ov.low(PriceKind::Ema)?.lo;
+        if !p.is_positive() {
+            return None;
+        }
+        q_floor(&(q_ratio(c.collateral, 100u64) / &p * pow10(w.banks[ab].decimals as u32))).to_u64()?.max(1000)
+    };
+    let ix = w.ix_deposit(u.accts[0], u.auth, ab, u.tokens[ab], collateral_native, None);
     w.vm.exec(&ix).ok()?;
-    let ix = w.ix_deposit(v.accts[0], v.auth, ab, v.tokens[ab], c.collateral / 2 + 1, None);
+    let ix = w.ix_deposit(v.accts[0], v.auth, ab, v.tokens[ab], collateral_native / 2 + 1, None);
     w.vm.exec(&ix).ok()?;
     let ix = w.ix_deposit(l.accts[0], l.auth, lb, l.tokens[lb], 1_000_000_000_000, None);
     let _ = w.vm.exec(&ix);
@@ -556,9 +568,45 @@ fn enumerate_shapes(n_syms: usize, max_len: usize, f: &mut dyn FnMut(&[u8]) -> R
     rec(&mut cur, n_syms, max_len, f)
 }
 
+/// sweep withdraw / repay sizes across the premium frontier and the health-not-worse frontier
+fn sweep_amounts(p: &Prep, c: &BrCase, stats: &mut Stats, shard: Option<(usize, usize)>) -> Result<(), (String, Vec<u8>, String)> {
+    let base = (p.w_amt, p.r_amt);
+    let mut x = c.extra_seed ^ 0x5555;
+    let n_amt = if c.max_len == 0 { 400 } else { (c.extra_random / 20).max(200) };
+    for k in 0..n_amt {
+        if c.max_len != 0 {
+            if let Some((i, n)) = shard {
+                if (k as usize) % n != i {
+                    continue;
+                }
+            }
+        }
+        x = splitmix(x);
+        let fw = 500 + (x % 4500); // per-mille of the base withdraw
+        x = splitmix(x);
+        let fr = 200 + (x % 2500);
+        let mut p2 = p.clone();
+        p2.w_amt = ((base.0 as u128 * fw as u128) / 1000).max(1) as u64;
+        p2.r_amt = ((base.1 as u128 * fr as u128) / 1000).max(1) as u64;
+        let names = ["sA", "wA", "rA", "eA"];
+        let before = stats.committed_with_control;
+        check_c10(&p2, &names, c, stats).map_err(|(sig, msg)| (sig, vec![1u8, 5, 6, 3], format!("{msg} [w_amt={} r_amt={}]", p2.w_amt, p2.r_amt)))?;
+        if stats.committed_with_control > before {
+            stats.premium_frontier.0 += 1;
+        } else {
+            stats.premium_frontier.1 += 1;
+        }
+    }
+    Ok(())
+}
+
 pub fn run_case(c: &BrCase, c10: bool, stats: &mut Stats, shard: Option<(usize, usize)>) -> Result<(), (String, Vec<u8>, String)> {
     let Some(p) = prepare(c, c10) else { return Ok(()) };
     stats.prepared = true;
+    if c.max_len == 0 {
+        // sweep-only world: just the amount sweep inside the well-formed bracket
+        return sweep_amounts(&p, c, stats, shard);
+    }
     let alpha: &[&'static str] = if c10 { C10_SYMS } else { C11_SYMS };
     let mut check = |s: &[u8], stats: &mut Stats| -> Result<(), (String, Vec<u8>, String)> {
         let names = shape_strs(alpha, s);
@@ -591,9 +639,11 @@ pub fn run_case(c: &BrCase, c10: bool, stats: &mut Stats, shard: Option<(usize, 
     if let Some(e) = err {
         return Err(e);
     }
-    // (b) amounts inside the well-formed bracket: sweep withdraw / repay sizes across the premium
-    // frontier and the health-not-worse frontier
+    // (b) amounts inside the well-formed bracket
     if c10 {
+        sweep_amounts(&p, c, stats, shard)?;
+    }
+    if false {
         let base = (p.w_amt, p.r_amt);
         let mut x = c.extra_seed ^ 0x5555;
         let n_amt = (c.extra_random / 20).max(200);
@@ -672,9 +722,46 @@ pub fn run(ctx: &Ctx, c10: bool) -> Report {
             }
         }
     }
+    // extra sweep-only worlds (C10): many portfolios, amount sweep only
+    let mut sweep_cases: Vec<BrCase> = vec![];
+    if c10 {
+        use proptest::strategy::ValueTree;
+        use proptest::test_runner::{Config, RngAlgorithm, TestRng, TestRunner};
+        let want = ctx.tier.pick(160usize, 3200usize);
+        let sstrat = case_strategy(true, 0, 0);
+        let mut runner = TestRunner::new_with_rng(Config { failure_persistence: None, ..Config::default() }, TestRng::from_seed(RngAlgorithm::ChaCha, &ctx.seed_bytes("c10-sweep", 0)));
+        let mut tries = 0;
+        while sweep_cases.len() < want && tries < want * 20 {
+            tries += 1;
+            if let Ok(t) = sstrat.new_tree(&mut runner) {
+                sweep_cases.push(t.current());
+            }
+        }
+    }
     let n = ctx.threads;
     let mut rep = par_workers(n, |wi| {
         let mut rep = Report::new(rule);
+        for (si, c) in sweep_cases.iter().enumerate() {
+            if si % n != wi {
+                continue;
+            }
+            let mut st = Stats::default();
+            let r = run_case(c, c10, &mut st, None);
+            rep.evaluations += st.shapes;
+            rep.add_extra("sweep_worlds", st.prepared as u64);
+            rep.add_extra("amount_sweep_committed", st.premium_frontier.0);
+            rep.add_extra("amount_sweep_rejected", st.premium_frontier.1);
+            rep.add_extra("committed_with_third_party_control", st.committed_with_control);
+            for j in 0..st.committed_with_control.min(1000) {
+                rep.nontrivial_hash(fnv(format!("s{si}/{j}").as_bytes()));
+            }
+            if let Err((sig, shape, msg)) = r {
+                let mut cc = c.clone();
+                cc.shapes = vec![shape];
+                rep.violation(&sig, msg, serde_json::to_value(&cc).unwrap());
+                return rep;
+            }
+        }
         for (ci, c) in cases.iter().enumerate() {
             let mut st = Stats::default();
             let r = run_case(c, c10, &mut st, Some((wi, n)));
